@@ -17,60 +17,62 @@ open KV KV.NeoxL
 def RowsOK (mp : Nat) (A : Mat) : Prop := 0 < mp ∧ mp ∣ A.length
 def ColsOK (mp cols : Nat) (A : Mat) : Prop := 0 < mp ∧ mp ∣ cols ∧ ∀ r ∈ A, r.length = cols
 
-theorem gather_split_rows (mp : Nat) (A : Mat) (h : RowsOK mp A) : gatherRows (splitRows mp A) = A := by
-  sorry
+theorem gather_split_rows (mp : Nat) (A : Mat) (h : RowsOK mp A) : gatherRows (splitRows mp A) = A :=
+  gather_split_rows_l mp A h.1 h.2
 
 theorem split_gather_rows (mp k : Nat) (parts : List Mat) (hl : parts.length = mp) (hk : 0 < k)
-    (hp : ∀ p ∈ parts, p.length = k) : splitRows mp (gatherRows parts) = parts := by
-  sorry
+    (hp : ∀ p ∈ parts, p.length = k) : splitRows mp (gatherRows parts) = parts :=
+  split_gather_rows_l mp k parts hl hk hp
 
 theorem gather_split_cols (mp cols : Nat) (A : Mat) (h : ColsOK mp cols A) :
-    gatherCols A.length (splitCols mp cols A) = A := by
-  sorry
+    gatherCols A.length (splitCols mp cols A) = A :=
+  gather_split_cols_l mp cols A h.1 h.2.1 h.2.2
 
 theorem split_gather_cols (mp k rows : Nat) (parts : List Mat) (hl : parts.length = mp) (hk : 0 < k)
     (hp : ∀ p ∈ parts, p.length = rows ∧ ∀ r ∈ p, r.length = k) :
-    splitCols mp (mp * k) (gatherCols rows parts) = parts := by
-  sorry
+    splitCols mp (mp * k) (gatherCols rows parts) = parts :=
+  split_gather_cols_l mp k rows parts hl hk hp
 
 /-- the scatter emulated with reduce_scatter (shards from the primary, zeros from everyone else)
     delivers exactly shard `i` to member `i` -/
 theorem scatter_is_shard (mp primary i : Nat) (shards : List Mat) (hp : primary < mp) (hi : i < shards.length) :
-    scatterFrom mp primary shards i = shards.getD i [] := by
-  sorry
+    scatterFrom mp primary shards i = shards.getD i [] :=
+  scatter_is_shard_l mp primary i shards hp hi
 
 /-- **every member ends with its shard of the preconditioned gathered gradient**, for ANY
     preconditioning map `P` that preserves the shape — column-parallel without bias … -/
 theorem shard_of_precond_col (mp primary i : Nat) (w : List Mat) (P : Mat → Mat) (hmp : 0 < mp)
     (hp : primary < mp) (hi : i < mp) (hw : w.length = mp) :
     (neoxPrecond .col mp primary 0 0 w none P i).1 = (splitRows mp (P (gatherRows w))).getD i [] := by
-  sorry
+  rw [shard_of_precond_l .col mp primary i 0 0 w none P hmp hp hi]; rfl
 
 /-- … row-parallel without bias … -/
 theorem shard_of_precond_row (mp primary i rows wcols : Nat) (w : List Mat) (P : Mat → Mat) (hmp : 0 < mp)
     (hp : primary < mp) (hi : i < mp) (hw : w.length = mp) :
     (neoxPrecond .row mp primary rows wcols w none P i).1 = (splitCols mp wcols (P (gatherCols rows w))).getD i [] := by
-  sorry
+  rw [shard_of_precond_l .row mp primary i rows wcols w none P hmp hp hi]; rfl
 
 /-- … and in general `neoxPrecond = shardOf ∘ P ∘ gatherCombined` -/
 theorem shard_of_precond (par : Par) (mp primary i rows wcols : Nat) (w : List Mat)
     (b : Option (List (List Rat))) (P : Mat → Mat) (hmp : 0 < mp) (hp : primary < mp) (hi : i < mp) :
     neoxPrecond par mp primary rows wcols w b P i =
-      shardOf par mp b.isSome wcols (P (gatherCombined par rows w b primary)) i := by
-  sorry
+      shardOf par mp b.isSome wcols (P (gatherCombined par rows w b primary)) i :=
+  shard_of_precond_l par mp primary i rows wcols w b P hmp hp hi
 
 /-- identity preconditioning returns every rank's own shard (nothing is permuted or lost):
     column-parallel -/
 theorem identity_roundtrip_col (mp primary i k : Nat) (w : List Mat) (hmp : 0 < mp) (hp : primary < mp)
     (hi : i < mp) (hw : w.length = mp) (hk : 0 < k) (hwk : ∀ p ∈ w, p.length = k) :
     (neoxPrecond .col mp primary 0 0 w none id i).1 = w.getD i [] := by
-  sorry
+  rw [shard_of_precond_l .col mp primary i 0 0 w none id hmp hp hi]
+  exact congrArg (·.getD i []) (split_gather_rows_l mp k w hw hk hwk)
 
 theorem identity_roundtrip_row (mp primary i k rows : Nat) (w : List Mat) (hmp : 0 < mp) (hp : primary < mp)
     (hi : i < mp) (hw : w.length = mp) (hk : 0 < k)
     (hwk : ∀ p ∈ w, p.length = rows ∧ ∀ r ∈ p, r.length = k) :
     (neoxPrecond .row mp primary rows (mp * k) w none id i).1 = w.getD i [] := by
-  sorry
+  rw [shard_of_precond_l .row mp primary i rows (mp * k) w none id hmp hp hi]
+  exact congrArg (·.getD i []) (split_gather_cols_l mp k rows w hw hk hwk)
 
 /-- **factor shapes are those of the unsharded layer** -/
 theorem factor_shapes_unsharded (mp fullIn fullOut : Nat) (hasBias : Bool) (hmp : 0 < mp)
@@ -78,21 +80,21 @@ theorem factor_shapes_unsharded (mp fullIn fullOut : Nat) (hasBias : Bool) (hmp 
     aDim .row mp (fullIn / mp) hasBias = fullIn + (if hasBias then 1 else 0) ∧
     gDim .row mp fullOut = fullOut ∧
     aDim .col mp fullIn hasBias = fullIn + (if hasBias then 1 else 0) ∧
-    gDim .col mp (fullOut / mp) = fullOut := by
-  sorry
+    gDim .col mp (fullOut / mp) = fullOut :=
+  factor_shapes_unsharded_l mp fullIn fullOut hasBias hmp hin hout
 
 /-- **reduction groups**: the sharded factor is reduced over the data-parallel group by primaries,
     the replicated factor over all stage peers -/
 theorem reduction_groups :
     reduceGroup .row true = .dataParallelOnPrimary ∧ reduceGroup .row false = .stagePeers ∧
-    reduceGroup .col true = .stagePeers ∧ reduceGroup .col false = .dataParallelOnPrimary := by
-  sorry
+    reduceGroup .col true = .stagePeers ∧ reduceGroup .col false = .dataParallelOnPrimary :=
+  ⟨rfl, rfl, rfl, rfl⟩
 
 /-- averaging `mp` identical copies per data-parallel replica over all `dp·mp` stage peers is the
     average over the `dp` replicas: the replicated factor is the unsharded layer's factor -/
 theorem replicated_mean (dp mp : Nat) (hdp : 0 < dp) (hmp : 0 < mp) (x : Nat → Rat) :
     (((List.range dp).flatMap fun d => (List.range mp).map fun _ => x d).foldl (· + ·) 0) / ((dp * mp : Nat) : Rat)
-      = (((List.range dp).map x).foldl (· + ·) 0) / (dp : Rat) := by
-  sorry
+      = (((List.range dp).map x).foldl (· + ·) 0) / (dp : Rat) :=
+  replicated_mean_l dp mp hdp hmp x
 
 end KV.C11
